@@ -1,6 +1,175 @@
-(* C05 — stub: model not yet built (the property is listed under not_applicable until it is). *)
-From Coq Require Import List ZArith Bool.
+(* C05 wire model: decodes a case (core tree, AtomicLevel cells, observer leaf ids, history of
+   operations), runs the model of C05/Cores.v on it, and defines the property's oracle [spec],
+   which is written against the path specification ([delivered], [hooks_due], [accepts],
+   [min_delivered]) and never calls [check]/[enabled]/[level_of].  No proofs in this file.
+
+   input  = (tree cells obs ops)
+     tree  = (0 id en) leaf | (1) no-op | (2 t ...) NewTee | (3 t h) RegisterHooks
+           | (4 t en) NewIncreaseLevelCore (on error the wrapped core is kept and the error counted)
+           | (5 t) sampler | (6 t) NewLazyWith | (7 t) t.With(fields)
+     en    = (0 t) zapcore.Level t | (1 a) AtomicLevel cell a | (2 #tbl) LevelEnablerFunc, tbl[l+128] <> 0
+     cells = (v ...) initial AtomicLevel values;  obs = (id ...) leaves that are observer cores
+     op    = (0 a v) SetLevel | (1 fam l) log call | (2 l) Core.Enabled(l)
+           | (3) (Logger.Level, LevelOf(core)) | (4 n) zapgrpc V(n) | (5) logger = logger.With(fields)
+   observation = (nerr (o ...)), one o per op:
+     call -> ((ev ...) (count ...) evals): ev = (0 id)/(1 h) in write order for IO leaves and hooks,
+             count per observer leaf, evals = user payload evaluations;  others -> value or () *)
+From Coq Require Import List ZArith Bool Lia Arith.
+From Coq.Strings Require Import Byte.
 Import ListNotations.
-From Zap Require Import Base.Wire.
-Definition model (i : sx) : sx := SL [].
-Definition spec (i o : sx) : bool := false.
+From Zap Require Import Base.Wire C05.Cores.
+Open Scope Z_scope.
+
+Definition tbl_fn (tb : list bool) : level -> bool := fun l => nth (Z.to_nat (l + 128)) tb false.
+Definition dec_en (s : sx) : enabler :=
+  match sx_z (sx_nth s 0) with
+  | 0 => ELvl (sx_z (sx_nth s 1))
+  | 1 => EAtom (sx_n (sx_nth s 1))
+  | _ => EFn (tbl_fn (map (fun b => negb (Byte.eqb b x00)) (sx_b (sx_nth s 1))))
+  end.
+
+Definition sum (l : list nat) : nat := fold_right Nat.add 0%nat l.
+
+(* builds the tree bottom-up in world w (the initial cell values); [ok] is the validation
+   NewIncreaseLevelCore performs; returns the core and the number of rejected constructions *)
+Fixpoint build_with (ok : world -> core -> enabler -> bool) (w : world) (s : sx) {struct s} : core * nat :=
+  match s with
+  | SL (SZ tag :: args) =>
+      match tag, args with
+      | 0, [id; en] => (Leaf (sx_n id) (dec_en en), 0%nat)
+      | 2, cs => let rs := map (build_with ok w) cs in (new_tee (map fst rs), sum (map snd rs))
+      | 3, [c; h] => let '(c', n) := build_with ok w c in (Hooked c' (sx_n h), n)
+      | 4, [c; en] => let '(c', n) := build_with ok w c in
+                      if ok w c' (dec_en en) then (Filter c' (dec_en en), n) else (c', S n)
+      | 5, [c] => let '(c', n) := build_with ok w c in (Sampled c', n)
+      | 6, [c] => let '(c', n) := build_with ok w c in (Lazy c', n)
+      | 7, [c] => let '(c', n) := build_with ok w c in (with_core c', n)
+      | _, _ => (Nop, 0%nat)
+      end
+  | _ => (Nop, 0%nat)
+  end.
+
+Definition dec_fam (z : Z) : fam :=
+  match z with
+  | 0 => FLogger | 1 => FCheck | 2 => FSugar | 3 => FSugarf | 4 => FSugarw | 5 => FSugarln
+  | 6 => FZapio | 7 => FStdLog | 8 => FGrpcDirect | 9 => FGrpcLn | 10 => FGrpcPrint | _ => FGrpcPrintln
+  end.
+
+Inductive op :=
+| OSet (a : nat) (v : Z) | OCall (f : fam) (l : level) | OEnabled (l : level)
+| OLevel | OV (n : Z) | OWith.
+Definition dec_op (s : sx) : op :=
+  match sx_z (sx_nth s 0) with
+  | 0 => OSet (sx_n (sx_nth s 1)) (sx_z (sx_nth s 2))
+  | 1 => OCall (dec_fam (sx_z (sx_nth s 1))) (sx_z (sx_nth s 2))
+  | 2 => OEnabled (sx_z (sx_nth s 1))
+  | 3 => OLevel
+  | 4 => OV (sx_z (sx_nth s 1))
+  | _ => OWith
+  end.
+
+Definition world_of (cells : sx) : world := fun a => sx_z (nth a (sx_l cells) (SZ 0)).
+Definition is_io (obs : list nat) (id : nat) : bool := negb (existsb (Nat.eqb id) obs).
+Definition count (id : nat) (l : list nat) : nat := length (filter (Nat.eqb id) l).
+
+Definition enc_event (x : writer) : sx :=
+  match x with WLeaf i => SL [SZ 0; of_nat i] | WHook h => SL [SZ 1; of_nat h] end.
+Definition dec_event (s : sx) : writer :=
+  if sx_z (sx_nth s 0) =? 0 then WLeaf (sx_n (sx_nth s 1)) else WHook (sx_n (sx_nth s 1)).
+Definition visible (obs : list nat) (x : writer) : bool :=
+  match x with WLeaf i => is_io obs i | WHook _ => true end.
+
+(* state carried along a history: the cells and the current logger's core *)
+Definition next_state (w : world) (c : core) (o : op) : world * core :=
+  match o with
+  | OSet a v => (set_cell w a v, c)
+  | OWith => (w, with_core c)
+  | _ => (w, c)
+  end.
+
+(* ---------------- the model's observation ---------------- *)
+Definition model_op (obs : list nat) (w : world) (c : core) (o : op) : sx :=
+  match o with
+  | OSet _ _ | OWith => SL []
+  | OCall f l =>
+      let ws := call_writers w c f l in
+      SL [SL (map enc_event (filter (visible obs) ws));
+          SL (map (fun id => of_nat (count id (leaves_of ws))) obs);
+          of_nat (payload_evals w c (is_io obs) f l)]
+  | OEnabled l => of_bool (enabled w c l)
+  | OLevel => SL [SZ (level_of w c); SZ (level_of w c)]
+  | OV n => of_bool (grpc_v w c n)
+  end.
+Fixpoint model_ops (obs : list nat) (w : world) (c : core) (ops : list op) : list sx :=
+  match ops with
+  | [] => []
+  | o :: r => model_op obs w c o :: (let '(w', c') := next_state w c o in model_ops obs w' c' r)
+  end.
+
+Definition model (i : sx) : sx :=
+  let w0 := world_of (sx_nth i 1) in
+  let obs := map sx_n (sx_l (sx_nth i 2)) in
+  let '(c, nerr) := build_with increase_ok w0 (sx_nth i 0) in
+  SL [of_nat nerr; SL (model_ops obs w0 c (map dec_op (sx_l (sx_nth i 3))))].
+
+(* ---------------- the oracle ---------------- *)
+Fixpoint nat_list_eqb (a b : list nat) : bool :=
+  match a, b with
+  | [], [] => true
+  | x :: a', y :: b' => Nat.eqb x y && nat_list_eqb a' b'
+  | _, _ => false
+  end.
+
+(* NewIncreaseLevelCore must reject exactly the enablers that allow a valid level at which the
+   wrapped core delivers nothing *)
+Definition spec_increase_ok (w : world) (c : core) (en : enabler) : bool :=
+  forallb (fun l => negb (on w en l) || accepts w c l) valid_levels.
+
+(* the reported level v is consistent with delivery: nothing is delivered at a valid level below
+   it, and if it is a valid level something is delivered at it *)
+Definition level_ok_b (w : world) (c : core) (v : level) : bool :=
+  forallb (fun l => negb (l <? v) || negb (accepts w c l)) valid_levels &&
+  (negb (is_valid v) || accepts w c v).
+Definition cells_in_range_b (w : world) (c : core) : bool :=
+  forallb (fun a => (min_level <=? w a) && (w a <=? InvalidL)) (cells c).
+
+Definition spec_op (obs : list nat) (w : world) (c : core) (o : op) (x : sx) : bool :=
+  match o with
+  | OSet _ _ | OWith => true
+  | OCall f l =>
+      let ws := map dec_event (sx_l (sx_nth x 0)) in
+      let d := delivered w c l in
+      let ev := sx_n (sx_nth x 2) in
+      let fields := if carries_fields f then length (filter (is_io obs) d) else 0%nat in
+      (* every IO leaf on an enabled path, in tree order, and no other *)
+      nat_list_eqb (leaves_of ws) (filter (is_io obs) d) &&
+      (* every observer leaf as often as it lies on an enabled path *)
+      nat_list_eqb (map sx_n (sx_l (sx_nth x 1))) (map (fun id => count id d) obs) &&
+      (* hooks: once per hooked core whose wrapped core accepts, never otherwise *)
+      nat_list_eqb (hooks_of ws) (hooks_due w c l) &&
+      (* payload evaluations: one marshalling per IO leaf written; the message is formatted once
+         when the entry is delivered, never when it is disabled below DPanic (from DPanic upwards a
+         disabled call may still build the message for the terminal action) *)
+      (if accepts w c l then Nat.eqb ev (fields + (if formats_message f then 1 else 0))
+       else if l <? DPanicL then Nat.eqb ev 0
+       else Nat.leb ev (if formats_message f then 1 else 0))
+  | OEnabled l => Bool.eqb (sx_bool x) (accepts w c l)
+  | OLevel =>
+      let v := sx_z (sx_nth x 0) in
+      Z.eqb v (sx_z (sx_nth x 1)) && level_ok_b w c v &&
+      (negb (cells_in_range_b w c) || Z.eqb v (min_delivered w c))
+  | OV n => Bool.eqb (sx_bool x) (accepts w c (grpc_level n))
+  end.
+Fixpoint spec_ops (obs : list nat) (w : world) (c : core) (ops : list op) (xs : list sx) : bool :=
+  match ops, xs with
+  | [], [] => true
+  | o :: r, x :: xs' => spec_op obs w c o x && (let '(w', c') := next_state w c o in spec_ops obs w' c' r xs')
+  | _, _ => false
+  end.
+
+Definition spec (i o : sx) : bool :=
+  let w0 := world_of (sx_nth i 1) in
+  let obs := map sx_n (sx_l (sx_nth i 2)) in
+  let '(c, nerr) := build_with spec_increase_ok w0 (sx_nth i 0) in
+  Nat.eqb (sx_n (sx_nth o 0)) nerr &&
+  spec_ops obs w0 c (map dec_op (sx_l (sx_nth i 3))) (sx_l (sx_nth o 1)).
